@@ -15,13 +15,16 @@
    The SPREAD-REWARD ACCOUNT conjunct is proved in the form of DESIGN 9.2 (C01_spread_covered_partial): whenever the claim queries
    succeed, the sum of all claimable spread rewards is at most the account's balance, provided the number of MulDec roundings of
    the history (two per withdrawal, one per collected position) plus the number of open positions is below 2 x scaling factor.
-   NOT proved (see C01_full below): the incentive-account conjunct, that claim queries never fail, and the success of the exit
-   sequence itself. *)
+   The INCENTIVE ACCOUNT conjunct is proved in the same form (C01_inc_covered_partial): the collected + forfeitable incentives of all
+   open positions are at most the account's balance (and, in Properties/C08.v, together with what the incentive records still have
+   to emit: < balance + 1), provided (roundings + open positions) x 6 < 2 x incentive scaling factor.
+   NOT proved (see C01_full below): that claim queries never fail, the exact (non-integer) remaining-emission term of the
+   incentive conjunct, and the success of the exit sequence itself. *)
 From Coq Require Import ZArith QArith List Bool Lia Sorting.Permutation.
 Import ListNotations.
 From Osmo Require Import Base.DecModel CL.TickMath CL.CLMath CL.CLPool CL.CLSwap CL.CLStep CL.Ideal
   CLR.Accum CLR.Rewards CLR.RSwap CLR.RStep C07.Base C07.LP C08.Proj C08.Dom
-  C08.PaidHist C01.Funds C01.Exact C01.Solvent C01.SwapPath C01.Potential C01.SwapSolvent C01.History C01.Full C01.SpreadAcc.
+  C08.PaidHist C08.Inc C08.IncHist C01.Funds C01.Exact C01.Solvent C01.SwapPath C01.Potential C01.SwapSolvent C01.History C01.Full C01.SpreadAcc.
 Open Scope Z_scope.
 
 (* ==== the full statement (DESIGN.md section 5, C01) ==== *)
@@ -139,6 +142,16 @@ Theorem C01_spread_covered_partial : forall sp spf ssc isc users t ops c, 0 < sp
 Proof. exact spread_covered_reachable. Qed.
 Print Assumptions C01_spread_covered_partial.
 
+(* incentive account conjunct of Solv, PARTIAL: integer-robust form (claims only), explicit rounding budget, successful queries *)
+Theorem C01_inc_covered_partial : forall sp spf ssc isc users t ops c, 0 < sp -> 0 <= spf <= 500000000000000000 -> 0 < isc ->
+  let rs0 := rinit sp spf ssc isc users t in
+  let rs := rrun rs0 ops in
+  (hist_icost rs0 ops + Z.of_nat (length (s_pos (r_base rs)))) * Z.of_nat NU < 2 * isc ->
+  inc_claims rs = Some c ->
+  fst c <= fst (b_inc (s_bank (r_base rs))) /\ snd c <= snd (b_inc (s_bank (r_base rs))).
+Proof. exact inc_covered_reachable. Qed.
+Print Assumptions C01_inc_covered_partial.
+
 (* a history with two positions, a one-for-zero swap that crosses tick 1000, a swap back, an incentive and a partial withdrawal:
    the slack counter is positive and far below the bound, position 1 is open and its full withdrawal pays both tokens *)
 Definition ex_init : rstate :=
@@ -159,12 +172,14 @@ Example C01_solv_reachable_nonvacuous :
   0 < fst (b_pool (s_bank s)) /\ 0 < snd (b_pool (s_bank s)) /\
   (exists q x0 x1, In q (s_pos s) /\ calc_actual_amounts (s_pool s) (ps_lower q) (ps_upper q) (- ps_liq q) = Some (x0, x1)
     /\ d_truncate_int x0 < 0 /\ d_truncate_int x1 < 0) /\
-  hist_pcost ex_init ex_hist = 2 /\ exists c, spread_claims (rrun ex_init ex_hist) = Some c /\ 0 < fst c /\ 0 < snd c.
+  hist_pcost ex_init ex_hist = 2 /\ (exists c, spread_claims (rrun ex_init ex_hist) = Some c /\ 0 < fst c /\ 0 < snd c) /\
+  hist_icost ex_init ex_hist = 4 /\ exists c, inc_claims (rrun ex_init ex_hist) = Some c /\ 0 < fst c.
 Proof.
   intro s. let v := eval vm_compute in (r_base (rrun ex_init ex_hist)) in assert (E : s = v) by (vm_compute; reflexivity).
   clearbody s. subst s.
   split; [split; vm_compute; reflexivity|]. split; [reflexivity|].
   split; [vm_compute; reflexivity|]. split; [vm_compute; reflexivity|].
   split; [eexists; eexists; eexists; split; [left; reflexivity|]; split; [vm_compute; reflexivity|]; split; vm_compute; reflexivity|].
-  split; [vm_compute; reflexivity|]. eexists. split; [vm_compute; reflexivity|]. split; vm_compute; reflexivity.
+  split; [vm_compute; reflexivity|]. split; [eexists; split; [vm_compute; reflexivity|]; split; vm_compute; reflexivity|].
+  split; [vm_compute; reflexivity|]. eexists. split; [vm_compute; reflexivity|]. vm_compute; reflexivity.
 Qed.
